@@ -104,7 +104,8 @@ def case_task(task):
                                       [None if f.parent[i] is None else keep.index(f.parent[i]) for i in keep])
                     gen.build_tree(sub, data)
                     part.count("warm_up_forests")
-            tree, names = gen.build_tree(f, data, child_order_rng=rng if c.get("shuffle") else None)
+            tree, names = gen.build_tree(f, data, child_order_rng=rng if c.get("shuffle") else None,
+                                         order=f.postorder(reverse_siblings=True) if c["id"] % 3 == 1 else None)
             vec = monitors.node_vectors(tree)
             root = np.array(tree.data_log_likelihood)
             part.count("evaluations")
